@@ -138,6 +138,28 @@ class Slotted(object):
     return ('slotted', self.w - a)
 
 
+class Bag(list):
+  """A container: falsy while empty."""
+
+  def describe(self, a, b=2):
+    LOG.append(('Bag.describe', len(self), a, b))
+    if a > 0:
+      return ('bag', len(self), a + b)
+    return ('bag', len(self), a - b)
+
+
+class Quiet(object):
+
+  def __bool__(self):
+    return False
+
+  def meth(self, a, b=2):
+    LOG.append(('Quiet.meth', a, b))
+    if a > 0:
+      return ('quiet', a + b)
+    return ('quiet', a - b)
+
+
 def free_method(self, a, b=2):
   LOG.append(('free_method', self.w, a, b))
   if a > 0:
@@ -316,6 +338,8 @@ ARGSETS = {
     'k': [((), None), ((2,), None), ((), {'k': -1}), ((1, 2), None)],
     'nt': [((1, 2), None), ((), {'x': 1, 'y': 2}), ((1,), None)],
     'self_a': [],     # filled per target (needs an instance as first argument)
+    'dec': [((__import__('decimal').Decimal('-1.234'),), None), ((), None)],
+    'one': [((1,), None), ((), None)],
     'len': [(([1, 2, 3],), None), (((),), {}), ((5,), None), ((), None)],
     'abs': [((-3,), None), ((2.5,), {}), (('x',), None)],
     'max': [((1, 5, 3), None), (([4, 2],), {'key': None}), ((), None), ((3,), {'default': 0})],
@@ -383,10 +407,12 @@ def build_pool(lane, which):
   add('metaclass_call', 'callable_obj', U.WithMeta, fnname='__call__')
   add('slotted_callable', 'callable_obj', U.Slotted(), fnname='__call__')
   add('manual_bound', 'function', types.MethodType(U.free_method, c1), fnname='free_method')
+  add('falsy_bag_method', 'function', U.Bag().describe, fnname='describe')
+  add('falsy_obj_method', 'function', U.Quiet().meth, fnname='meth')
   add('class', 'constructor', U.C, argsets='ctor')
   add('nt_class', 'constructor', U.NT, argsets='nt')
   add('ntsub_class', 'constructor', U.NTSub, argsets='nt')
-  add('nt_method', 'namedtuple_method', U.NTSub(1, 2).total, argsets='k', fnname='total')
+  add('nt_method', 'function', U.NTSub(1, 2).total, argsets='k', fnname='total')
   add('gen', 'generator', U.gen, fnname='gen')
   add('decorated', 'function', U.decorated, fnname='wrapper')
   add('cached', 'lru_cache', U.cached)
@@ -434,6 +460,10 @@ def build_pool(lane, which):
   add('print', 'partial', functools.partial(print, file=common_sink()), argsets='print', inner='builtin')
   add('sqrt', 'builtin', math.sqrt, argsets='sqrt')
   add('str_upper', 'native', str.upper, argsets='upper')
+  import decimal
+  add('ctx_abs', 'builtin', decimal.Context(prec=2).abs, argsets='dec')        # C method *named* abs
+  add('deque_count', 'builtin', collections.deque([1, 2, 1]).count, argsets='one')
+  add('op_abs', 'builtin', __import__('operator').abs, argsets='abs')
   add('list_append', 'builtin', [].append, argsets='append')
   # stdlib allow-list by value
   add('copy_copy', 'stdlib', copy.copy, argsets='copy')
@@ -627,7 +657,7 @@ def _gen_fault(rng, tier):
   return {'kind': 'disk-full', 'budget': rng.choice([0, 10, 200, 1000])}
 
 
-CONVERTIBLE = ['caller', 'caller', 'metaclass_call', 'slotted_callable', 'manual_bound', 'fn', 'lam', 'nested', 'bound', 'unbound', 'cmeth', 'cmeth_inst', 'smeth', 'callable',
+CONVERTIBLE = ['caller', 'caller', 'falsy_bag_method', 'falsy_obj_method', 'nt_method', 'metaclass_call', 'slotted_callable', 'manual_bound', 'fn', 'lam', 'nested', 'bound', 'unbound', 'cmeth', 'cmeth_inst', 'smeth', 'callable',
                'decorated', 'caller', 'raiser', 'partial1', 'partial_nested', 'partial_method',
                'partial_chain', 'partial_chain3', 'partial_subclass',
                'mod:malty', 'mod:numpy_like', 'mod:reporting', 'mod:copyx', 'np_sub_overridden',
@@ -649,6 +679,15 @@ def make_plan(seed, index, tier, sub):
       ops.append({'target': name, 'args': rng.randrange(len(aset)), 'opts': _gen_opts(rng),
                   'status': rng.choice(STATUSES) if rng.random() < 0.6 else 'UNSPECIFIED',
                   'via_scope': rng.random() < 0.3, 'strict': False, 'fault': None})
+      if rng.random() < 0.5:
+        # the same target again, under options differing in one or two fields
+        # and another status: what was decided or remembered for one option
+        # set must not leak into another
+        o2 = dict(ops[-1]['opts'])
+        for fld in rng.sample(['rec', 'ur', 'icuc', 'feats'], rng.choice([1, 1, 2])):
+          o2[fld] = (not o2[fld]) if fld != 'feats' else (o2[fld] + 1) % len(FEATSETS)
+        ops.append({'target': name, 'args': rng.randrange(len(aset)), 'opts': o2,
+                    'status': rng.choice(STATUSES[:2]), 'via_scope': False, 'strict': False, 'fault': None})
   else:
     # fault histories: a few focus targets so that remembered/recovery rules get exercised
     focus = rng.sample(CONVERTIBLE, rng.choice([1, 2, 3]))
@@ -692,6 +731,8 @@ def _norm(v, depth=0):
     return r
   if isinstance(v, dict):
     return {str(k): _norm(x, depth + 1) for k, x in sorted(v.items(), key=lambda kv: str(kv[0]))}
+  if type(v).__name__ == 'Decimal':
+    return 'Decimal:' + str(v)
   if isinstance(v, range):
     return ['range'] + list(v)[:20]
   if isinstance(v, types.GeneratorType):
